@@ -16,6 +16,7 @@ RULE = ("seeded random trees (depth<=4 quick, <=6 thorough) over 10 symbols of r
         "reference exponent vector (value-aware ANY), returned expression numerically equal to the input (3 random points), "
         "and Quantity(e[symbols:=non-zero quantities]) has the inferred dimension. non-trivial = >=1 operator node and >=1 "
         "dimensional leaf; distinct = distinct srepr.")
+RULE = RULE + ' Also: NaN-valued quantities as terms of sums; derivatives with respect to applied functions and to derivatives; native SymPy units and Symbolic wrappers as leaves.'
 ASSUMPTIONS = ["vf/refdim.py rules define the reference inference (property statement), leaves via SymPy's dimsys_SI",
                "value equality is judged at 3 random points with 1e-10 relative tolerance"]
 N = {"quick": dict(trees=3200, depth=4), "thorough": dict(trees=40000, depth=6)}
